@@ -244,6 +244,39 @@ def encode(msg, cfg, encoding='latin_1', hex_bitmap=False):
     return bytes(out), struct
 
 
+def substructure(data, struct, cfg, encoding):
+    """extend a structure map with the internals of PDS carriers (tag / len / value) and ICC fields (tag / len /
+    value) of a reference-encoded message"""
+    out = list(struct)
+    for name, s, e in struct:
+        if not name.endswith('.data'):
+            continue
+        bit = name[2:].split('.')[0]
+        proc = cfg[bit].get('field_processor')
+        if proc == 'PDS':
+            pos = s
+            i = 0
+            while pos + 7 <= e:
+                n = int(data[pos + 4:pos + 7].decode(encoding))
+                out.append(('%s.pds%d.tag' % (name[:-5], i), pos, pos + 4))
+                out.append(('%s.pds%d.len' % (name[:-5], i), pos + 4, pos + 7))
+                out.append(('%s.pds%d.value' % (name[:-5], i), pos + 7, pos + 7 + n))
+                pos += 7 + n
+                i += 1
+        elif proc == 'ICC':
+            pos = s
+            i = 0
+            while pos < e:
+                tl = 2 if data[pos] in TWO_BYTE_TAG_PREFIXES else 1
+                n = data[pos + tl]
+                out.append(('%s.icc%d.tag' % (name[:-5], i), pos, pos + tl))
+                out.append(('%s.icc%d.len' % (name[:-5], i), pos + tl, pos + tl + 1))
+                out.append(('%s.icc%d.value' % (name[:-5], i), pos + tl + 1, pos + tl + 1 + n))
+                pos += tl + 1 + n
+                i += 1
+    return out
+
+
 # ---------------------------------------------------------------------------------------------------
 # decoding
 
